@@ -1097,6 +1097,12 @@ class XmlFile(SimpleCorr):
                 for s, p, n in self.STREAMS_QUICK]
 
     def run_cases(self, d, blocks, tag):
+        # the extracted model recurses on list lengths (OCaml native code uses the system stack): children inherit the limit
+        import resource
+        soft, hard = resource.getrlimit(resource.RLIMIT_STACK)
+        want = hard if hard != resource.RLIM_INFINITY else (1 << 30)
+        if soft != resource.RLIM_INFINITY and soft < want:
+            resource.setrlimit(resource.RLIMIT_STACK, (want, hard))
         impl, model, orc, st = SimpleCorr.run_cases(self, d, blocks, tag)
         # C05 writer direction: every text the real serializer produced, through expat + the docs/xml.md layout checker
         import xmlcheck
@@ -1423,7 +1429,22 @@ class BinSpec(SimpleCorr):
         stats = json.load(open(st))
         stats.update(json.load(open(st2)))
         lines = [l.rstrip("\n") for l in open(orc)] + [l.rstrip("\n") for l in open(orc2)]
-        return (dict(vlib.read_blocks(obs)), dict(vlib.read_blocks(mo)), lines, stats)
+        model = dict(vlib.read_blocks(mo))
+        # docs/binary.md, SSTR: "MD5 Hash | 16 bytes | An MD5 hash of the Shared String": checked here with hashlib (independent of the crates)
+        import hashlib
+        nsstr = 0
+        for cid, ml in model.items():
+            for l in ml:
+                if l.startswith("sstr-entry "):
+                    w = l.split(" ")
+                    content = b"" if w[2] == "-" else bytes.fromhex(w[2])
+                    nsstr += 1
+                    if hashlib.md5(content).hexdigest() != w[1]:
+                        lines.append("%s C03 doc-sstr-md5-field comp=none the SSTR entry of a %d-byte string carries `%s` in its MD5 Hash field, the MD5 is %s"
+                                     % (cid, len(content), w[1], hashlib.md5(content).hexdigest()))
+                        break
+        stats["c03_sstr_entries_md5_checked"] = nsstr
+        return (dict(vlib.read_blocks(obs)), model, lines, stats)
 
     def disagreements(self, blocks, impl, model):
         out = []
